@@ -19,8 +19,8 @@ CHECKS = {
    note="Hash, hash-to-scalar and element encoding are uninterpreted functions; qndleq with a concrete 64-bit modulus; OPRF blinding algebra, Schnorr (zk/dl) and OT are not covered; two known findings are listed in known_findings.json (qndleq security parameter taken from the proof; non-canonical P-curve scalars).",
    ref="§4 C16"),
  "C17": dict(
-   text="Shamir/Feldman secret sharing (secretsharing + math/polynomial real generic code) over an abstract field (SMT reals, z3 nlsat): t = 1, 2 (3 thorough), every secret / coefficients / distinct non-zero identifiers: t+1 shares recover the secret, t or fewer are refused, dealt shares verify, altered ones do not; threshold RSA: the integer Lagrange coefficient computeLambda is exact (lambda*den == Delta*num) for every set of k distinct players out of l (l=5,k=2,3; l=7,k=4 thorough), decided on the real math/big code with symbolic player indices; CombineSignShares raises exactly the shares it multiplies in to |2*lambda(T,0,j)| of one set T of >= k players (three shares of a (5,2) sharing, arbitrary distinct indices, modular exponentiation recorded).",
-   note="Abstract field of characteristic 0; element/scalar encodings not modelled; RSA exponentiation and share generation (computePolynomial with float powers for large l) not covered.",
+   text="Shamir/Feldman secret sharing (secretsharing + math/polynomial real generic code) over an abstract field (SMT reals, z3 nlsat): t = 1, 2 (3 thorough), every secret / coefficients / distinct non-zero identifiers: t+1 shares recover the secret, t or fewer are refused, dealt shares verify, altered ones do not; threshold RSA: the integer Lagrange coefficient computeLambda is exact (lambda*den == Delta*num) for every set of k distinct players out of l (l=5,k=2,3; l=7,k=4 thorough), decided on the real math/big code with symbolic player indices; computePolynomial = exact integer polynomial (k = 14, player indices up to 30, powers beyond 2^63); CombineSignShares raises exactly the shares it multiplies in to |2*lambda(T,0,j)| of one set T of >= k players (three shares of a (5,2) sharing, arbitrary distinct indices, modular exponentiation recorded).",
+   note="Abstract field of characteristic 0; element/scalar encodings not modelled; RSA exponentiation itself (Shoup's theorem) is an assumption; computeLambda for subsets whose products exceed 64 bits only shown natively.",
    ref="§4 C17"),
  "C01": dict(
    text="Decapsulation decided to be exactly the Fujisaki-Okamoto transform with implicit rejection for EVERY ciphertext and key: ML-KEM-512/768/1024 (FIPS 203 Alg. 18), Kyber-512/768/1024, FrodoKEM-640-SHAKE, and the X-Wing combiner binds every received byte; encaps-then-decaps returns the secret under the K-PKE correctness axiom; Frodo 15-bit pack/unpack round trip into a used buffer.",
